@@ -28,6 +28,7 @@ REQUIRED = {
     tier: {
         'on-grid-references-accepted-and-origin-checked': 200,
         'off-grid-references-refused': 40,
+        'on-grid-reference-accepted-after-a-refused-one-on-the-same-connection': 5,
         'default-origin-checked': 10,
         'references-inexact-in-binary': 60,
         'references-via-cli-text': 10,
@@ -178,6 +179,27 @@ def check_combo(ctx, case, kind, gs, rng, max_levels, n_cli, index):
         key, desc = curves_common.classify_outcome(exc)
         if key == 'refusal:reference-off-grid' and curve_rows(connection, kind) == 0:
             rec.hit('off-grid-references-refused')
+            if frac == 0.25:
+                # library use: the caller catches the refusal and asks again on the same connection
+                # (no rollback in between) with a multiple of the step -- which must be accepted
+                curves_common.run_curve(connection, kind, ref, rollback=False)
+                k_ok = rng.choice(levels)
+                exc2 = curves_common.run_curve(connection, kind, k_ok * gs, rollback=False)
+                if exc2 is not None:
+                    key2, desc2 = curves_common.classify_outcome(exc2)
+                    if key2 != 'refusal:reference-level-not-in-curve':
+                        rec.violation('on-grid-reference-refused-after-a-refused-off-grid-reference:' + key2,
+                                      {'exception': desc2, 'refused_reference_mm': ref, 'reference_mm': k_ok * gs, 'kind': kind},
+                                      dict(case, off_grid_reference=ref, curve=kind), 'combo:' + kind)
+                    connection.rollback()
+                else:
+                    connection.commit()
+                    bad = [kk for p, kk, w in oracle_curves.walk_curve(connection, kind, k_ok, None)[0] if p == PROPERTY]
+                    if bad:
+                        rec.violation('after-a-refused-off-grid-reference:' + bad[0], {'refused_reference_mm': ref, 'reference_mm': k_ok * gs, 'kind': kind},
+                                      dict(case, off_grid_reference=ref, curve=kind), 'combo:' + kind)
+                    else:
+                        rec.hit('on-grid-reference-accepted-after-a-refused-one-on-the-same-connection')
         elif desc['origin'] == 'harness':
             rec.inconclusive_because('harness exception: {}'.format(desc))
         else:
